@@ -3,6 +3,8 @@ package offset
 import (
 	"io"
 	"os"
+
+	"github.com/ozontech/file.d/verifhook"
 )
 
 type LoadSaver interface {
@@ -47,6 +49,7 @@ func (o *Offset) saveToTmp() error {
 	defer func(file *os.File) {
 		_ = file.Close()
 	}(file)
+	defer verifhook.Point("offset.generic.afterWrite")
 	return o.Callback.Save(file)
 }
 
@@ -54,5 +57,6 @@ func (o *Offset) Save() error {
 	if err := o.saveToTmp(); err != nil {
 		return err
 	}
+	verifhook.Point("offset.generic.beforeRename")
 	return os.Rename(o.getTmpPath(), o.path)
 }
